@@ -557,6 +557,24 @@ impl<'a> Lifter<'a> {
                 }
                 unsupported("macro", e)
             }
+            Expr::Array(a) => {
+                // [e0, e1, ..] -> index function over a fixed length
+                let mut vals = Vec::new();
+                for x in &a.elems {
+                    let t = self.expr(x)?;
+                    if t.ty != "real" {
+                        return unsupported("array literal of non-real elements", e);
+                    }
+                    vals.push(t.text);
+                }
+                let n = vals.len();
+                let mut text = String::from("arbitrary()");
+                for (k, t) in vals.iter().enumerate().rev() {
+                    text = format!("if i__ == {k}int {{ {t} }} else {{ {text} }}");
+                }
+                self.note("L8", e.span(), "array literal lifted to an index function");
+                Ok(v(format!("RArr {{ len: {n}int, at: |i__: int| {text} }}"), "RArr"))
+            }
             Expr::Closure(_) => unsupported("closure in value position", e),
             Expr::Return(_) => unsupported("return in expression position (L14 handles statement position only)", e),
             Expr::Range(_) => unsupported("range in value position", e),
